@@ -469,6 +469,7 @@ type authRun struct {
 	fake   *authFake
 	config *authConfig
 	hdrs   map[string]http.Header
+	hdrMu  sync.Mutex
 }
 
 func newAuthRun() *authRun {
@@ -507,6 +508,8 @@ func (r *authRun) do(a *authReq) string {
 		return "harness-error " + tok(err.Error())
 	}
 	// a caller that keeps one header map per registry and uses it for every request it sends there
+	// (concurrent requests of a batch share it too: nobody is entitled to write to it)
+	r.hdrMu.Lock()
 	if r.hdrs == nil {
 		r.hdrs = map[string]http.Header{}
 	}
@@ -518,6 +521,7 @@ func (r *authRun) do(a *authReq) string {
 		r.hdrs[a.host] = h
 	}
 	req.Header = r.hdrs[a.host]
+	r.hdrMu.Unlock()
 	if body != nil {
 		req.Body = body
 		req.ContentLength = int64(len("request body"))
